@@ -507,6 +507,10 @@ def comprehension(cx: Ctx, e2, v, src, elt, depth):
         w = cx.fresh(e2)
         guard = cx.pick([f"len([{w} for {w} in {seq}]) > 0", f"Count(Where({seq}, lambda {w}: True)) > 0"])
         ifs = f" if {guard} if First({seq}) == First({seq})" + ifs
+    if cx.chance(2):
+        # a condition with boolean structure of its own: an `or` group inside an `and` (it is ONE condition)
+        b1, b2, b3 = (gen(cx, e2, B, 0) for _ in range(3))
+        ifs += cx.pick([f" if {b1} and ({b2} or {b3})", f" if ({b1} or {b2}) and {b3}", f" if not ({b1} and {b2}) or {b3}"])
     if cx.cfg.genexp and cx.chance(3):
         return f"({elt} for {v} in {src}{ifs})"
     return f"[{elt} for {v} in {src}{ifs}]"
